@@ -457,6 +457,9 @@ func runC11(prop, tier string, c *kernel.Chooser, r *kernel.Recorder) *kernel.Vi
 		}
 		lastAppend.acked = true
 	}
+	if s.viol == nil && c.Chance(150) {
+		s.hostEntries()
+	}
 	if calls == 0 {
 		kernel.Infra("the WAL made no simulated file-system call: import swap did not take effect")
 	}
